@@ -1,13 +1,113 @@
-//! C06: generators and executor (see DESIGN.md section 4, C06).
+//! C06 (crash part): SIGKILL campaign.  A child process runs a call sequence on a file-backed store and
+//! acknowledges each completed call on its stdout; the parent kills it at an arbitrary instant, reopens the store
+//! with the same key and checks that the dump equals the state after a prefix of the sequence that contains every
+//! acknowledged call, and that the store is fully usable.
+use crate::gen_store::{tag, value};
 use crate::rng::Rng;
+use crate::store_case::*;
+use askar_storage::backend::Backend;
 use serde_json::{json, Value};
+use std::io::{BufRead, BufReader, Read, Write};
+use std::process::{Command, Stdio};
 
-/// generated cases for this property (each a JSON object with "kind": "c06…")
-pub fn gen(_r: &mut Rng, _thorough: bool, _count: Option<usize>) -> Vec<Value> {
-    vec![]
+pub fn gen(r: &mut Rng, thorough: bool, count: Option<usize>) -> Vec<Value> {
+    let n = count.unwrap_or(if thorough { 600 } else { 40 });
+    let mut out = vec![];
+    for id in 0..n {
+        let nops = 6 + r.below(14);
+        let mut ops = vec![json!({"op": "session", "s": 0, "txn": false})];
+        let names = ["n1", "n2", "n3", "n4", "n5"];
+        for _ in 0..nops {
+            let n = *r.pick(&names);
+            // many tags widen the window in which a multi-statement call is in flight
+            let nt = if r.chance(2, 3) { 20 + r.below(40) } else { r.below(4) };
+            let tags = Value::Array((0..nt).map(|_| tag(r)).collect());
+            ops.push(match r.below(10) {
+                0..=4 => json!({"op": "insert", "s": 0, "k": 2, "c": "c1", "n": n, "v": value(r), "t": tags, "e": null}),
+                5..=7 => json!({"op": "replace", "s": 0, "k": 2, "c": "c1", "n": n, "v": value(r), "t": tags, "e": null}),
+                8 => json!({"op": "remove", "s": 0, "k": 2, "c": "c1", "n": n}),
+                _ => json!({"op": "remove_all", "s": 0, "k": 2, "c": "c1", "f": null}),
+            });
+        }
+        // when to kill: after a number of acknowledgements plus a delay of 0..3 ms (lands inside the next call)
+        out.push(json!({"id": id, "kind": "c06", "profile": "default", "ops": ops,
+                        "kill_after_acks": r.below(nops + 1), "delay_us": r.below(3000)}));
+    }
+    out
 }
 
-/// run one case against the real code; returns {"out": …, "oracle": […], "feat": {…}}
-pub fn exec(_case: &Value, _tag: &str) -> Value {
-    json!({"out": {"err": "not implemented"}})
+/// `askar_harness child-c06 <db path> <ops file>`
+pub fn child_main(args: &[String]) {
+    let path = &args[0];
+    let ops: Vec<Value> = serde_json::from_str(&std::fs::read_to_string(&args[1]).expect("ops file")).expect("ops json");
+    let backend = open_existing(path, "").expect("child open");
+    let out = std::io::stdout();
+    run_ops_with_ack(backend, Some(path.clone()), &ops, &mut |i, got| {
+        let mut w = out.lock();
+        writeln!(w, "ack {} {}", i, if got.get("err").is_some() { "err" } else { "ok" }).ok();
+        w.flush().ok();
+    });
+    // keep running so that the kill always hits a live process
+    std::thread::sleep(std::time::Duration::from_secs(30));
+}
+
+pub fn exec(case: &Value, tag_: &str) -> Value {
+    let profile = case["profile"].as_str().unwrap_or("default");
+    let ops = case["ops"].as_array().cloned().unwrap_or_default();
+    let (backend, path) = provision(true, profile, "", &format!("kill-{}", tag_));
+    askar_storage::future::block_on(async { backend.close().await.ok() });
+    drop(backend);
+    let path = path.unwrap();
+    let ops_file = format!("{}.ops.json", path);
+    std::fs::write(&ops_file, serde_json::to_string(&ops).unwrap()).unwrap();
+    let mut child = Command::new(std::env::current_exe().unwrap())
+        .args(["child-c06", &path, &ops_file]).stdout(Stdio::piped()).stderr(Stdio::null()).spawn().expect("spawn child");
+    let stdout = child.stdout.take().unwrap();
+    let mut reader = BufReader::new(stdout);
+    let want = case["kill_after_acks"].as_u64().unwrap_or(0) as usize;
+    let mut acked = 0usize;
+    let mut line = String::new();
+    while acked < want {
+        line.clear();
+        match reader.read_line(&mut line) { Ok(0) | Err(_) => break, Ok(_) => if line.starts_with("ack ") { acked += 1; } }
+    }
+    std::thread::sleep(std::time::Duration::from_micros(case["delay_us"].as_u64().unwrap_or(0)));
+    child.kill().ok(); // SIGKILL
+    child.wait().ok();
+    // acknowledgements written before death are still in the pipe
+    let mut rest = String::new();
+    reader.read_to_string(&mut rest).ok();
+    acked += rest.lines().filter(|l| l.starts_with("ack ")).count();
+    std::fs::remove_file(&ops_file).ok();
+
+    // reopen with the previous key, dump, check usability
+    let mut oracle = vec![];
+    let mut feat = std::collections::BTreeMap::new();
+    let (dump, usable) = match open_existing(&path, "") {
+        Err(e) => { oracle.push(json!({"sig": "reopen-failed", "err": format!("{:?}", e)})); (Value::Null, false) }
+        Ok(b) => {
+            let dump = dump_profile(&b, profile).unwrap_or_else(|e| { oracle.push(json!({"sig": "dump-failed", "err": format!("{:?}", e)})); Value::Null });
+            let probe = [json!({"op": "session", "s": 0, "txn": false}),
+                         json!({"op": "insert", "s": 0, "k": 2, "c": "post", "n": "crash", "v": "aa", "t": [[0, "a", "1"]], "e": null}),
+                         json!({"op": "fetch", "s": 0, "k": 2, "c": "post", "n": "crash"}),
+                         json!({"op": "remove", "s": 0, "k": 2, "c": "post", "n": "crash"})];
+            let mut ok = true;
+            run_ops_with_ack(b.clone(), Some(path.clone()), &probe, &mut |i, got| {
+                if got.get("err").is_some() || (i == 2 && got.is_null()) { ok = false; }
+            });
+            askar_storage::future::block_on(async { b.close().await.ok() });
+            (dump, ok)
+        }
+    };
+    cleanup(&Some(path));
+    if !usable { oracle.push(json!({"sig": "store-unusable-after-crash"})); }
+    // the reference: state after `acked` calls, or after one more (committed but not yet acknowledged)
+    let refs = reference_prefix_dumps(profile, &ops, 32);
+    let prefix = if refs.get(acked) == Some(&dump) { "n" } else if refs.get(acked + 1) == Some(&dump) { "n+1" } else { "none" };
+    if prefix == "none" {
+        oracle.push(json!({"sig": "crash:not-a-prefix-state", "acked": acked, "dump": dump, "expected_n": refs.get(acked), "expected_n1": refs.get(acked + 1)}));
+    }
+    *feat.entry(format!("prefix:{}", prefix)).or_insert(0u64) += 1;
+    *feat.entry(if acked < ops.len() { "killed-mid-sequence".to_string() } else { "killed-after-end".to_string() }).or_insert(0u64) += 1;
+    json!({"out": {"prefix": prefix, "usable": usable}, "oracle": oracle, "feat": feat, "model_input": {"acked": acked, "dump": dump}})
 }
